@@ -9,7 +9,7 @@ for p in props:
     path = '/verif/harness/props/%s.py' % pid.lower()
     if os.path.exists(path):
         m = importlib.import_module('props.%s' % pid.lower()).META
-        if m.get('claimed', True):
+        if m.get('claimed') is True and os.path.exists('/verif/coq/Props/%s.v' % pid):
             checks.append({
                 "property_id": pid,
                 "quick_cmd": "./check %s --tier quick" % pid,
